@@ -108,6 +108,11 @@ func (x *Exec) eval(e ast.Expr, st *St, fr *Frame, k kval) {
 					}
 				})
 				if cc.Yields != "" {
+					x.wrapCfail("subjects of closure "+cc.Key, func() {
+						for _, e := range cc.YieldsArgs {
+							v.Subj = append(v.Subj, env.tr(e))
+						}
+					})
 					v.Proto = x.W.protoOf(cc.Yields)
 					v.T = x.fresh("closure", SRef)
 					x.assume(st, Neq(v.T, Null))
